@@ -1,18 +1,28 @@
 /- C16 — Topology diffs: build/apply/reverse are inverse, failures roll back.
-   Property theorems over the model of hwloc/diff.c (Hw.Attr.Diff); lemmas are in Hw.Attr.DiffLemmas.
+   Property theorems over the model of hwloc/diff.c (Hw.Attr.Diff); lemmas are in Hw.Attr.DiffLemmas, DiffSlots
+   (slots, independence, well-formedness hypotheses), DiffCommute (independent entries commute) and DiffBuildApply
+   (apply ∘ build over whole trees).
 
    Reading of the English property over the model:
    * `TopoSame A B`  = nothing that diff_build compares differs;
    * `TopoRepr A B`  = A and B differ at most in names, NUMA local memory and info *values*;
    * `KeysInj`, `InfoNamesDistinct` = the hypotheses under which addressing by (depth, index) and by
      info name is meaningful (C01 well-formedness; no duplicate info names).
+   * `KeysNodup`, `DepthsBelowNbl` = the rest of C01 the whole-tree statements need: no two objects of the tree share a
+     key, and no object has depth `nb_levels` (the key of the topology infos);
+   * `DistinctSlots nbl d` = the entries of `d` address pairwise distinct attributes (kind, info name, object);
+   * `SameSkeleton A B`, `MemConsistent T` = what the `total_memory` part of the observation needs: A and B agree object
+     by object on key / ancestor chain / NUMA-ness (functions of shape and type in hwloc, data in the model), and
+     total_memory is the uint64 sum of the local memories at or below an object.
    The model follows diff.c after the fixes 986f5b5 (name on one side only => TOO_COMPLEX), ad7dbbc (cancel path
    undoes last applied first) and 50d1249 (distances with per-object types compared field by field).
-   What is NOT proved here (left to the differential tie and the C-side oracles of engine `diff`):
-   the end-to-end `apply (build A B) A ≈ B` over whole trees (only its INFO core, C16_apply_build_infos_partial),
-   REVERSE application *in list order* for lists longer than one entry on pairwise distinct attributes
-   (false without that restriction: C16_reverse_apply_chain_witness), and the XML round trip. -/
+   What is NOT proved here (left to the differential tie and the C-side oracles of engine `diff`): the XML round trip.
+   REVERSE application in list order is proved for `DistinctSlots` lists (C16_reverse_apply; false without the
+   restriction: C16_reverse_apply_chain_witness) and every built diff is one (C16_build_distinct_slots);
+   apply ∘ build is proved over whole trees (C16_apply_build). -/
 import Hw.Attr.DiffLemmas
+import Hw.Attr.DiffCommute
+import Hw.Attr.DiffBuildApply
 namespace Hw.Props.C16
 open Hw.Diff
 variable {σ : Type} [DecidableEq σ]
@@ -95,46 +105,89 @@ theorem C16_reverse_apply_reversed_list {rev : Bool} {T T' : Topo σ} {d : List 
     (hn : InfoNamesDistinct T) (h : applyAll rev T d = some T') : apply (!rev) T' d.reverse = (0, T) :=
   apply_ok (applyAll_reverse_inv hk hn h)
 
-/-- P0 reverse_apply in list order (what hwloc_topology_diff_apply does with the flag), partial: lists of at most
-    one entry.  For longer lists it needs pairwise distinct attributes (true of built diffs; commutation of
-    independent entries not proved) and is false otherwise: C16_reverse_apply_chain_witness. -/
+/-- two independent entries commute as Option-valued steps, whatever the two flags: both orders fail together or
+    reach the same topology -/
+theorem C16_entries_commute {r1 r2 : Bool} {T : Topo σ} {e1 e2 : Entry σ} (hi : Indep T.nbl e1 e2) :
+    (applyOne r1 T e1).bind (fun T1 => applyOne r2 T1 e2) = (applyOne r2 T e2).bind (fun T1 => applyOne r1 T1 e1) :=
+  applyOne_comm hi
+
+/-- P0 reverse_apply in list order (what hwloc_topology_diff_apply does with the flag), full strength: a
+    successfully applied list whose entries address pairwise distinct attributes is undone by THE SAME list with the
+    REVERSE flag flipped.  False without `DistinctSlots`: C16_reverse_apply_chain_witness. -/
+theorem C16_reverse_apply {rev : Bool} {T T' : Topo σ} {d : List (Entry σ)} (hk : KeysInj T) (hn : InfoNamesDistinct T)
+    (hd : DistinctSlots T.nbl d) (h : applyAll rev T d = some T') : apply (!rev) T' d = (0, T) :=
+  apply_ok (applyAll_same_order_inv hk hn hd h)
+
+/-- the special case of lists of at most one entry (no hypothesis on the list) -/
 theorem C16_reverse_apply_partial {rev : Bool} {T T' : Topo σ} {d : List (Entry σ)}
     (hk : KeysInj T) (hn : InfoNamesDistinct T) (hlen : d.length ≤ 1)
     (h : applyAll rev T d = some T') : apply (!rev) T' d = (0, T) := by
-  apply apply_ok
-  have := applyAll_reverse_inv hk hn h
+  apply C16_reverse_apply hk hn _ h
   match d, hlen with
-  | [], _ => simpa using this
-  | [x], _ => simpa using this
+  | [], _ => exact List.Pairwise.nil
+  | [x], _ => exact List.pairwise_singleton _ _
 
-/-- P0 apply_build, partial: the INFO core.  On one infos array with distinct names the INFO entries queued by
-    build turn the old array into the new one when applied in order.  Missing: the same statement for whole
-    trees (NAME/SIZE entries, total_memory propagation), covered by the C-side oracles of engine `diff`. -/
+/-! ## diff_apply ∘ diff_build -/
+
+/-- every diff that build returns with 0 addresses pairwise distinct attributes -/
+theorem C16_build_distinct_slots {A B : Topo σ} {d : List (Entry σ)} (hk : KeysNodup A) (hn : InfoNamesDistinct A)
+    (hd : DepthsBelowNbl A) (h : build A B = (0, d)) : DistinctSlots A.nbl d := build_distinctSlots hk hn hd h
+
+/-- P0 apply_build over whole trees, the part that needs nothing about total_memory: a diff built with 0 applies
+    with 0; the patched topology has the names, the infos and the topology infos of B, the local memory of B on every
+    NUMA node (DFS order), and diffing it against B gives 0 and the empty list.
+    `KeysNodup` cannot be weakened to `KeysInj` (C16_apply_build_needs_keys_nodup_witness), `InfoNamesDistinct` cannot
+    be dropped (C16_F13c_witness). -/
+theorem C16_apply_build_core {A B : Topo σ} {d : List (Entry σ)} (hk : KeysNodup A) (hn : InfoNamesDistinct A)
+    (hd : DepthsBelowNbl A) (h : build A B = (0, d)) :
+    ∃ A', apply false A d = (0, A') ∧ obsCore A' = obsCore B ∧
+      (∀ p ∈ A'.flat.zip B.flat, p.1.numa = true → p.1.lmem = p.2.lmem) ∧ build A' B = (0, []) := by
+  have hr := (build_ok_form h).1
+  exact ⟨applied A B, apply_ok (applyAll_build hk hn hd h), obsCore_applied hk hn hr.1, lmem_applied hk hn hr.1,
+    build_applied hk hn hr⟩
+
+/-- P0 apply_build over whole trees, full observation: if moreover total_memory is consistent in A and in B (and the
+    two trees agree on keys, ancestor chains and NUMA-ness) the patched topology is observationally equal to B:
+    per object key, name, NUMA local_memory, total_memory (the SIZE deltas propagated to the ancestors, uint64
+    arithmetic), infos; and the topology infos. -/
+theorem C16_apply_build {A B : Topo σ} {d : List (Entry σ)} (hk : KeysNodup A) (hn : InfoNamesDistinct A)
+    (hd : DepthsBelowNbl A) (hs : SameSkeleton A B) (hA : MemConsistent A) (hB : MemConsistent B)
+    (h : build A B = (0, d)) :
+    ∃ A', apply false A d = (0, A') ∧ obs A' = obs B ∧ build A' B = (0, []) := by
+  have hr := (build_ok_form h).1
+  exact ⟨applied A B, apply_ok (applyAll_build hk hn hd h), obs_applied hk hn hr.1 hs hA hB, build_applied hk hn hr⟩
+
+/-- P0 reverse_apply for built diffs, no hypothesis about the list: applying `build A B` and then the same list with
+    the REVERSE flag returns exactly to A -/
+theorem C16_reverse_apply_build {A B : Topo σ} {d : List (Entry σ)} (hk : KeysNodup A) (hn : InfoNamesDistinct A)
+    (hd : DepthsBelowNbl A) (h : build A B = (0, d)) :
+    ∃ A', apply false A d = (0, A') ∧ apply true A' d = (0, A) :=
+  ⟨applied A B, apply_ok (applyAll_build hk hn hd h),
+    C16_reverse_apply (rev := false) hk.keysInj hn (build_distinctSlots hk hn hd h) (applyAll_build hk hn hd h)⟩
+
+/-- the same diff read backwards (what `hwloc-patch -R` does): REVERSE application of `build A B` to B succeeds with 0
+    and yields a topology observationally equal to A, whose diff against A is empty.  (`A.nbl = B.nbl`: build does
+    not compare nb_levels, which in hwloc is a function of the depths it does compare.) -/
+theorem C16_reverse_apply_to_B {A B : Topo σ} {d : List (Entry σ)} (hk : KeysNodup A) (hn : InfoNamesDistinct A)
+    (hd : DepthsBelowNbl A) (hs : SameSkeleton A B) (hnbl : A.nbl = B.nbl) (hA : MemConsistent A) (hB : MemConsistent B)
+    (h : build A B = (0, d)) :
+    ∃ B', apply true B d = (0, B') ∧ obs B' = obs A ∧ build B' A = (0, []) := by
+  have hr := (build_ok_form h).1
+  obtain ⟨hkB, hnB, hdB⟩ := hyps_transfer hk hn hd hr hs hnbl
+  have hs' : SameSkeleton B A := Eq.symm hs
+  refine ⟨applied B A, apply_ok ?_, obs_applied hkB hnB hr.symm.1 hs' hB hA, build_applied hkB hnB hr.symm⟩
+  rw [applyAll_true]
+  exact applyAll_build hkB hnB hdB (build_swap h hs hnbl)
+
+/-- P0 apply_build, the INFO core on one infos array (kept as a lemma of C16_apply_build): with distinct names the
+    INFO entries queued by build turn the old array into the new one when applied in order. -/
 theorem C16_apply_build_infos_partial (k : Key) (i1 i2 : List (σ × σ)) (hnd : (i1.map Prod.fst).Nodup)
     (hok : (infosGo k i1 i2).2 = true) : applyInfos i1 (infosGo k i1 i2).1 = some i2 :=
   applyInfos_infosGo k i1 i2 hnd hok
 
-/-! ## statements left unproved (kept visible; covered only by the differential tie and the C-side oracles)
+/-! ## statement left unproved (kept visible; covered only by the C-side oracle `xml_roundtrip`)
 
-   Let `Indep nbl e₁ e₂` say that two OBJ_ATTR entries do not address the same attribute (different kind, or
-   different info name, or different object — where all keys of depth `nbl` alias the topology infos), and
-   `DistinctSlots nbl d` that the entries of `d` are pairwise `Indep`.
-
-   -- REVERSE application in list order for lists on pairwise distinct attributes (every built diff is one):
-   theorem C16_reverse_apply (hk : KeysInj T) (hn : InfoNamesDistinct T) (hd : DistinctSlots T.nbl d)
-       (h : applyAll rev T d = some T') : apply (!rev) T' d = (0, T)
-   -- needs: commutation of two independent entries as Option-valued steps
-   --   (applyOne r T e₁).bind (applyOne r · e₂) = (applyOne r T e₂).bind (applyOne r · e₁)
-   -- then d.reverse ~ d under DistinctSlots and C16_reverse_apply_reversed_list finish it.
-
-   -- apply ∘ build over whole trees:
-   theorem C16_apply_build (hk : KeysInj A) (hn : InfoNamesDistinct A)
-       (hc : total_memory consistent in A and B) (h : build A B = (0, d)) :
-       ∃ A', apply false A d = (0, A') ∧ obs A' = obs B ∧ build A' B = (0, [])
-   -- proved here only for one infos array (C16_apply_build_infos_partial) and on a concrete two-NUMA machine
-   -- with uint64 wrap (non-vacuity example below).
-
-   -- diff_xml_roundtrip: XML export/import is not modelled; checked on the C side (oracle `xml_roundtrip`). -/
+   -- diff_xml_roundtrip: XML export/import of diffs is not modelled. -/
 
 /-! ## negative facts about the code as it is (concrete witnesses, `σ := Nat`) -/
 
@@ -166,6 +219,16 @@ theorem C16_reverse_apply_chain_witness :
     let r := apply false (topo (leaf none [(7, 1)])) d
     r.1 = 0 ∧ (apply true r.2 d).1 = -1 := by decide
 
+/-- `KeysNodup` cannot be weakened to `KeysInj` in C16_apply_build: a tree holding the same object (same key, same
+    data) twice satisfies `KeysInj`; build returns 0 with two NAME entries for the one key and apply fails on the
+    second one (-2) -/
+theorem C16_apply_build_needs_keys_nodup_witness :
+    let c (nm : Nat) : Obj Nat := .mk { (leaf (some nm) []).data with depth := -2, ancs := [(0, 0)] } [] [] [] []
+    let A := topo (.mk (leaf (some 0) []).data [] [] [] [c 1, c 1])
+    let B := topo (.mk (leaf (some 0) []).data [] [] [] [c 2, c 2])
+    KeysInj A ∧ InfoNamesDistinct A ∧ DepthsBelowNbl A ∧ ¬ KeysNodup A ∧
+    (build A B).1 = 0 ∧ (apply false A (build A B).2).1 = -2 := by decide
+
 /-! ## non-vacuity -/
 
 def numa (lidx : Nat) (m : Nat) : Obj Nat :=
@@ -184,6 +247,23 @@ example :
     (build A B).1 = 0 ∧ (build A B).2.length = 2 ∧ (apply false A (build A B).2).1 = 0 ∧
     (apply false A (build A B).2).2.flat = B.flat ∧
     (apply true (apply false A (build A B).2).2 (build A B).2).2.flat = A.flat := by decide
+
+/-- the hypotheses of C16_apply_build / C16_reverse_apply_build / C16_build_distinct_slots hold of that pair, whose
+    diff is not empty (a NAME entry and a SIZE entry whose delta wraps) -/
+example :
+    let A := machine 10 (2 ^ 64 - 1) 1
+    let B := machine 4 (2 ^ 64 - 1) 2
+    KeysNodup A ∧ InfoNamesDistinct A ∧ DepthsBelowNbl A ∧ SameSkeleton A B ∧ MemConsistent A ∧ MemConsistent B ∧
+    build A B = (0, [.objAttr (0, 0) (.name (some 1) (some 2)), .objAttr (-3, 0) (.size 10#64 4#64)]) ∧
+    DistinctSlots A.nbl (build A B).2 ∧ A.nbl = B.nbl ∧
+    (apply true B (build A B).2).1 = 0 ∧ (apply true B (build A B).2).2.flat = A.flat := by decide
+/-- a hand-built list on pairwise distinct attributes (two INFO names of one object, the topology infos through two
+    aliasing keys would not be accepted): C16_reverse_apply applies to it -/
+example :
+    let d : List (Entry Nat) := [.objAttr (0, 0) (.info 7 1 5), .objAttr (0, 0) (.info 8 2 6), .objAttr (1, 0) (.info 9 9 0),
+      .objAttr (-3, 1) (.size 2#64 7#64)]
+    DistinctSlots (machine 1 2 3).nbl d ∧ (applyAll false (machine 1 2 3) d).isSome = true ∧
+    ¬ DistinctSlots (1 : Int) [Entry.objAttr (1, 0) (.info 9 9 0), Entry.objAttr (1, 5) (.info (9 : Nat) 0 1)] := by decide
 
 example : TopoSame (machine 1 2 3) (machine 1 2 3) := (build_empty_iff _ _).1 (by decide)
 example : ¬ TopoRepr (machine 1 2 3) (topo (leaf none [])) := (C16_build_too_complex_iff _ _).1 (by decide)
